@@ -19,14 +19,14 @@ Proof. exact result_depends_on_inputs_only. Qed.
 Theorem C08_no_known_exception : known_stale = nil.
 Proof. reflexivity. Qed.
 
-Theorem C08_stale_read_admits_difference : forall value (l r : loc) (v1 v2 : value), v1 <> v2 ->
+Theorem C08_stale_read_allows_difference : forall value (l r : loc) (v1 v2 : value), v1 <> v2 ->
   exists (o : op loc value) (s1 s2 : store loc value), agree_on loc value nil s1 s2 /\ In l (reads o) /\
     exec_op loc loc_eqb value o s1 r <> exec_op loc loc_eqb value o s2 r.
-Proof. intros value l r v1 v2 Hv. exact (stale_read_admits_difference loc loc_eqb loc_eqb_spec value l r v1 v2 Hv). Qed.
+Proof. intros value l r v1 v2 Hv. exact (stale_read_allows_difference loc loc_eqb loc_eqb_spec value l r v1 v2 Hv). Qed.
 
 Print Assumptions C08_base_class_resets.
 Print Assumptions C08_history_independent.
-Print Assumptions C08_stale_read_admits_difference.
+Print Assumptions C08_stale_read_allows_difference.
 
 (* state shared between objects (regenerated scan of the whole package: memoising decorators, mutable class attributes of non-pydantic classes, module-level
    containers mutated by functions): there is none - nothing an earlier run (of this or of any other instance) computed is kept where a later run finds it: instance fields are the only state (the def-use facts above cover those) *)
